@@ -152,6 +152,8 @@ func init() {
 					}
 				case "cancel-out":
 					p.At = 50 + r.IntN(250)
+				case "cancel-setup":
+					p.At = i / len(endings) % 2 // odd: the setup goes on for 250 ms after the interrupt
 				}
 				p.Desc = fmt.Sprintf("mode=%s c=%d ending=%s at=%d blocking=%s completion=%dms", mode, c, p.Ending, p.At, p.Blocking, p.Spec.CompletionMS)
 				cse := core.MkCase("C05", "run", i, seed, p)
@@ -469,6 +471,11 @@ func c05RunOnce(c *core.Case, o *core.Outcome, p c05Params) {
 		case "cancel-setup":
 			markStop()
 			e.cancel()
+			if p.At%2 == 1 {
+				// the setup has more to do after the interrupt arrived: it is part of the run until it returns
+				time.Sleep(250 * time.Millisecond)
+			}
+			e.l.Add("setup.end", "", "", 0, "")
 		case "setup-fail":
 			t.FailNow()
 		case "setup-panic":
@@ -733,6 +740,10 @@ func c05RunOnce(c *core.Case, o *core.Outcome, p c05Params) {
 		return
 	}
 	for _, ev := range e.l.Events() {
+		if ev.Seq > r.DoReturnSeq && ev.Kind == "setup.end" {
+			viol("setup-after-return", "the scenario's setup was still executing when Do returned (it ended %v later): code of the run outlived it", ev.T-r.TReturn)
+			return
+		}
 		if ev.Seq > r.DoReturnSeq && strings.HasPrefix(ev.Kind, "out.") {
 			viol("output-after-return", "output produced after Do returned: %q", ev.S)
 			return
